@@ -237,6 +237,7 @@ def s_item(it):
     lines = s_blocks(c)
     if a.get('blankfirst') and lines:
         lines = [('', 0)] + lines
+        rest = ' ' * (len(lead) + 1)    # an item that starts with a blank line: content column = marker + 1
     if not lines:
         return [(lead + ' ' * a.get('trailsp', 0), 0)]
     out = []
@@ -406,7 +407,7 @@ class Gen:
         r = self.r
         n = r.choice([1, 1, 1, 2, 2, 3])
         if self.reflow:
-            if n == 3 and self.p(0.9):
+            if n == 3 and self.p(0.95):
                 n = 2       # a 3-backtick span moved to a line start reads as a fence: keep rare
             s = ' '.join(self.ch(RWORDS) for _ in range(r.choice([1, 1, 2, 3, 5])))
             if n > 1 and self.p(0.5):
@@ -429,7 +430,7 @@ class Gen:
         r = self.r
         kind = 'img' if img else 'link'
         nwords = r.choice([1, 1, 2, 3])
-        if self.reflow and img and self.p(0.85):
+        if self.reflow and img and self.p(0.95):
             nwords = 1      # (HtmlRenderer drops line breaks inside alt texts: keep that class rare)
         text = self.inl(depth + 1 if not (self.reflow and img and nwords == 1) else 3, nwords,
                         nolink=True if not img else nolink, nobreak=nobreak, cell=cell)
